@@ -181,7 +181,7 @@ def h_dst_fin(ctx, NMAX):
     ctx.covered("loop_exhausted")
 
 
-def h_dst_nak(ctx, NMAX, multi=False):
+def h_dst_nak(ctx, NMAX, multi=False, nomd=False):
     w = World(ctx)
     limit = ctx.int("limit", 1, NMAX)
     L = ctx.int("L", 1, hdst.LMAX)
@@ -192,6 +192,8 @@ def h_dst_nak(ctx, NMAX, multi=False):
     sc = DstScenario(ctx, w, mode=ACK, cktype=ChecksumType.CRC_32, closure=False, seg=L, rig_kwargs=kw)
     if multi:
         return _nak_multi(ctx, w, sc, limit, L, NMAX)
+    if nomd:
+        return _nak_nomd(ctx, w, sc, limit, L, NMAX)
     sc.M = 2
     S = sc.S
     ctx.assume(S <= 2 * L, S > L)  # two segments
@@ -290,6 +292,54 @@ def _nak_multi(ctx, w, sc, limit, L, NMAX):
     ctx.covered("loop_exhausted")
 
 
+def _nak_nomd(ctx, w, sc, limit, L, NMAX):
+    """the Metadata PDU is lost: the EOF (possibly after one File Data PDU) starts the deferred procedure,
+    which has to re-request the Metadata (0,0) and the whole file on every expiry"""
+    sc.M = 2
+    S = sc.S
+    ctx.assume(S <= 2 * L, S > 0)
+    pre = [sc.grid_fd(0)] if ctx.choice("fd_first", 2) else []
+    pre.append(sc.eof())
+    for o in pre:
+        hdst.end_if_other_property(ctx, o)
+    o = sc.tick0()
+    hdst.end_if_other_property(ctx, o)
+
+    def full_sequence(pdus):
+        reqs = [tuple(q) for p in pdus if pdu_kind(p) == "NAK" for q in p.segment_requests]
+        return len(reqs) == 2 and sand(reqs[0][0] == 0, reqs[0][1] == 0, reqs[1][0] == 0, reqs[1][1] == S)
+    ctx.prop("first_nak_sequence", full_sequence(o.pdus) and sc.rig.h.step == DStep.WAITING_FOR_METADATA,
+             lambda: {"sig": f"without Metadata: first NAK sequence {o.kinds()} in step {sc.rig.h.step.name}"})
+    ctx.covered("metadata_missing")
+    rt = Retry(limit)
+    for r in range(NMAX + 2):
+        o = sc.tick(f"dt{r}")
+        hdst.end_if_other_property(ctx, o)
+        if not rt.expired():
+            ctx.prop("nothing_between_expiries", not o.pdus and not o.faults,
+                     lambda: {"sig": "NAK re-issued or fault without timer expiry"})
+            continue
+        rt.n += 1
+        if rt.n < limit:
+            ctx.covered("nak_reissued")
+            ctx.prop("resend_on_each_expiry", full_sequence(o.pdus),
+                     lambda: {"sig": "NAK sequence (Metadata missing) not re-issued on expiry"})
+            ctx.prop("no_fault_before_limit", not o.faults,
+                     lambda: {"sig": "NAK Limit Reached before the limit-th expiry (Metadata missing)"})
+            rt.restart()
+            continue
+        ctx.covered("limit_fault")
+        lf = [f for f in o.faults if f[2] == CC.NAK_LIMIT_REACHED]
+        ctx.prop("limit_fault_exactly_at_limit", len(lf) == 1 and lf[0][0] == "cancel",
+                 lambda: {"sig": "no NAK Limit Reached fault at the limit-th expiry (Metadata missing)"})
+        more = [o] + [sc.tick0() for _ in range(2)]
+        fins = [p for c in more for p in c.pdus if pdu_kind(p) == "FIN"]
+        ctx.prop("cancel_finished_sent", len(fins) >= 1 and fins[0].condition_code == CC.NAK_LIMIT_REACHED,
+                 lambda: {"sig": "no Finished(NAK limit) after the fault (Metadata missing)"})
+        return _after_limit_cancel_exchange(ctx, sc, 1, 2, CC.NAK_LIMIT_REACHED)
+    ctx.covered("loop_exhausted")
+
+
 def plan(tier):
     n = 3 if tier == "quick" else 6
     return [
@@ -302,11 +352,14 @@ def plan(tier):
         Spec(f"dest/nak-procedure/two-PDU-sequences/Nmax={n}", "vf.harness.c04:h_dst_nak",
              {"NMAX": n, "multi": True}, twin_share=0.2,
              obligations=["limit_fault", "nak_reissued", "multi_pdu_sequence"]),
+        Spec(f"dest/nak-procedure/metadata-missing/Nmax={n}", "vf.harness.c04:h_dst_nak",
+             {"NMAX": n, "nomd": True}, twin_share=0.2,
+             obligations=["limit_fault", "nak_reissued", "metadata_missing"]),
     ]
 
 
 BOUNDS = {
-    "quick": "limit symbolic in [1,3]; clock advance per call symbolic 0..2 intervals; sender EOF procedure (incl. EOF(cancel) phase and abandonment, ACK arriving at any round), receiver Finished procedure (incl. Finished(cancel) phase and abandonment, ACK at any round), receiver NAK procedure on a two-segment file and, with a maximum packet length forcing one request per NAK PDU, on a three-segment file with two gaps (two NAK PDUs per sequence) (progress at any round resets the count; after the limit fault the Finished(cancel) exchange with limit 1 must end in abandonment)",
+    "quick": "limit symbolic in [1,3]; clock advance per call symbolic 0..2 intervals; sender EOF procedure (incl. EOF(cancel) phase and abandonment, ACK arriving at any round), receiver Finished procedure (incl. Finished(cancel) phase and abandonment, ACK at any round), receiver NAK procedure on a two-segment file and, with a maximum packet length forcing one request per NAK PDU, on a three-segment file with two gaps (two NAK PDUs per sequence), and with the Metadata PDU lost (EOF first or after one File Data PDU; the sequence re-requests (0,0) and the whole file) (progress at any round resets the count; after the limit fault the Finished(cancel) exchange with limit 1 must end in abandonment)",
     "thorough": "limit symbolic in [1,6]",
 }
 OUTSIDE = "limits above Nmax; the two waits the documentation lists as unimplemented inactivity handling; check-limit timers (C13); handler codes other than the defaults (C14)"
